@@ -214,6 +214,7 @@ def _names_set(ex, member, n, grammar_of=None):
     o = SetObj(TStr, member, n)
     o.ty = NAMES
     o.grammar_of = grammar_of
+    o.enum_trigger_on_member = True  # member = in_names(d) / out_names(d): a valid trigger
     for f in o.wf_facts(st):
         st.assume(f)
     return st.alloc(o)
@@ -371,7 +372,7 @@ class GraphModels:
             mb = ex.models._iter_member(ex, args[0], TStr)
             k = z3.Const("k!ix", StrS)
             m = st.fresh_const("ixmem", NameSetS)
-            st.assume(_forall([k], m[k] == z3.And(a.member[k], z3.simplify(mb[k])), patterns=[m[k]]))
+            st.assume(_forall([k], m[k] == z3.And(a.member[k], z3.simplify(mb[k])), patterns=[m[k]] + ([a.member[k]] if _pat_ok(a.member[k]) else [])))
             o = SetObj(TStr, m, st.fresh_int("setn"))
             for f in o.wf_facts(st):
                 st.assume(f)
@@ -581,6 +582,10 @@ class GraphModels:
         if name == "networkx.edge_bfs":
             return self._edge_bfs(ex, args[0], kwargs.get("source", args[1] if len(args) > 1 else None), lineno)
         if name == "sorted" and len(args) == 1 and not kwargs:
+            from .engine import IterV
+
+            if isinstance(args[0], IterV) and args[0].concrete is None and getattr(args[0], "elem_type", None) is not None:
+                return self._sorted_perm(ex, args[0], lineno)
             return self._sorted_ints(ex, args[0], lineno)
         if name == "set" and len(args) == 1 and isinstance(args[0], Ref) and isinstance(st.heap[args[0].id], ListObj):
             lo = st.heap[args[0].id]
@@ -657,6 +662,24 @@ class GraphModels:
         else:
             st.assume(_forall([i, j], z3.Implies(z3.And(0 <= i, i < j, j < ro.n), ro.elems[i] <= ro.elems[j]), patterns=[z3.MultiPattern(ro.elems[i], ro.elems[j])]))
         ex.assumed.add("model:sorted(int): sorted permutation")
+        return res
+
+    def _sorted_perm(self, ex, seq, lineno):
+        """sorted(generator): a permutation of the produced elements, stated with the two index maps (good triggers);
+        as in the base model the order itself is not modelled."""
+        st = ex.st
+        kt = seq.elem_type
+        bi = st.fresh_int("bi")
+        e = kt.embed(st, seq.elem(bi))
+        at = lambda x: z3.substitute(e, (bi, x))  # noqa: E731
+        res = TList(kt).fresh(st, "sorted")
+        ro = st.heap[res.id]
+        to, frm = st.fresh_const("sp_to", z3.ArraySort(I, I)), st.fresh_const("sp_from", z3.ArraySort(I, I))
+        i, j = z3.Ints("i!sp j!sp")
+        st.assume(ro.n == seq.n)
+        st.assume(_forall([j], z3.Implies(z3.And(0 <= j, j < seq.n), z3.And(0 <= to[j], to[j] < ro.n, ro.elems[to[j]] == at(j), frm[to[j]] == j)), patterns=[to[j]] + ([at(j)] if _pat_ok(at(j)) else [])))
+        st.assume(_forall([i], z3.Implies(z3.And(0 <= i, i < ro.n), z3.And(0 <= frm[i], frm[i] < seq.n, ro.elems[i] == at(frm[i]), to[frm[i]] == i)), patterns=[frm[i], ro.elems[i]]))
+        ex.assumed.add("model:sorted(permutation only)")
         return res
 
     def _chain(self, ex, args, lineno):
